@@ -142,9 +142,12 @@ impl Regions {
         Ok(())
     }
 
-    pub(crate) fn remove(&mut self, region: &Region) -> Result<()> {
+    /// Refuses the removal of `region` while it is still referenced or if it is not part of
+    /// this table. Must be called before anything is changed; `internal_refs` counts the
+    /// references held by the caller's own bookkeeping (the layout) besides this table.
+    pub(crate) fn ensure_removable(&self, region: &Region, internal_refs: usize) -> Result<()> {
         // Expected 2: one from caller, one from self.index_to_region.
-        let ref_count = Arc::strong_count(region.arc());
+        let ref_count = Arc::strong_count(region.arc()).saturating_sub(internal_refs);
         debug!(
             "regions.remove '{}': arc count = {} (expected <= 2)",
             region.meta().id(),
@@ -158,19 +161,24 @@ impl Regions {
         }
 
         if self
-            .index_to_region
-            .get_mut(region.index())
-            .and_then(Option::take)
-            .is_none()
+            .get_from_index(region.index())
+            .is_none_or(|r| !r.ptr_eq(region))
         {
             return Err(Error::RegionNotFound);
+        }
+
+        Ok(())
+    }
+
+    /// Caller must have checked `ensure_removable` first.
+    pub(crate) fn remove(&mut self, region: &Region) {
+        if let Some(slot) = self.index_to_region.get_mut(region.index()) {
+            slot.take();
         }
 
         self.id_to_index.remove(region.meta().id());
 
         self.write_at(region.index(), &[0u8; SIZE_OF_REGION_METADATA]);
-
-        Ok(())
     }
 
     /// Schedules metadata writeback. Caller must follow with `sync_data()`.
